@@ -6,7 +6,7 @@
    is_von_name = the local function of Person._parse_string;  jr_part, first_part, token_case,
    spec_is_von: Spec/Names.v. *)
 From Pybtex Require Import Base.Prelude Base.PyChar Base.PyStr Model.BibtexStr Model.Names Spec.Names
-  Proofs.NamesSplit Proofs.Names Proofs.NamesCase Proofs.NamesAtomic Proofs.NamesOk Proofs.NamesUnique.
+  Proofs.NamesSplit Proofs.Names Proofs.NamesCase Proofs.NamesAtomic Proofs.NamesOk Proofs.NamesUnique Proofs.NamesLevel0.
 
 (* parsing never raises a foreign exception and never diverges, for EVERY string and every
    explicit part argument (the only error left is BibTeXError 'too many nested braces') *)
@@ -114,6 +114,13 @@ Theorem braced_groups_atomic : forall s, closed s ->
 Proof. exact braced_groups_atomic_pf. Qed.
 Print Assumptions braced_groups_atomic.
 
+(* every brace-level-0 whitespace character splits: a token of a closed string contains no whitespace
+   at brace level 0 (Spec/Names.v l0ok) *)
+Theorem level0_whitespace_splits : forall s ts, closed s -> split_tex_space s = Ok ts ->
+  Forall (fun t => closed t /\ l0ok t 0 = true) ts.
+Proof. exact level0_whitespace_splits_pf. Qed.
+Print Assumptions level0_whitespace_splits.
+
 (* ... and of every name part of the parsed person *)
 Theorem person_tokens_closed : forall s p rep, closed s -> person_of_string s = Ok (p, rep) ->
   Forall closed (p_first p ++ p_middle p ++ p_prelast p ++ p_last p ++ p_lineage p).
@@ -162,4 +169,7 @@ Proof. vm_compute. auto. Qed.
 Example ex_atomic : closed (s2l "{von der} Last, {Jr, {Sr}}, A {B C}") /\
   person_of_string (s2l "{von der} Last, {Jr, {Sr}}, A {B C}") =
     Ok (mkPerson [s2l "A"] [s2l "{B C}"] [] [s2l "{von der}"; s2l "Last"] [s2l "{Jr, {Sr}}"], false).
+Proof. vm_compute. auto. Qed.
+Example ex_level0 : closed (s2l "a {b c}d  e") /\ split_tex_space (s2l "a {b c}d  e") = Ok [s2l "a"; s2l "{b c}d"; s2l "e"]
+  /\ l0ok (s2l "{b c}d") 0 = true /\ l0ok (s2l "b c") 0 = false.
 Proof. vm_compute. auto. Qed.
